@@ -128,28 +128,38 @@ def run(ctx):
         res = "replaced by %s" % type(e).__name__
     if res != "same object":
         ctx.violation({"template": SRC, "result": res}, "an unhandled exception must propagate unchanged", tags=["c13.unhandled-identity"])
-    # error_handler returning True: render ends normally with the direct text, stacks as before
-    for handler_result, tag in [(True, "error-handler-true"), (False, "error-handler-false")]:
-        ctx.evaluations += 1
-        seen = []
+    # error_handler: True ends the render normally with the direct text; False lets the original exception object out --
+    # for ordinary exceptions and for BaseException subclasses (which _exec_template catches with a bare except)
+    class Quota(BaseException):
+        pass
+    for exc in [the_error, Quota("quota exceeded", 7), SystemExit(3)]:
+        def boom_e(exc=exc):
+            raise exc
+        for handler_result, tag in [(True, "error-handler-true"), (False, "error-handler-false"), (None, "no-error-handler")]:
+            ctx.evaluations += 1
+            seen = []
 
-        def handler(context, error, seen=seen, handler_result=handler_result):
-            seen.append((error, len(context._buffer_stack), len(context.caller_stack), context.caller_stack.nextcaller))
-            context.write("[handled]")
-            return handler_result
-        t = Template(SRC, error_handler=handler)
-        buf = util.FastEncodingBuffer()
-        c = Context(buf, boom=boom)
-        try:
-            t.render_context(c)
-            res = "normal"
-        except Boom2 as e:
-            res = "raised-same" if e is the_error else "raised-other"
-        want = ("normal" if handler_result else "raised-same", "direct [handled]")
-        state = (len(c._buffer_stack), len(c.caller_stack), c.caller_stack.nextcaller)
-        if (res, buf.getvalue()) != want or state != (1, 0, None) or not seen or seen[0][0] is not the_error or seen[0][1:] != (1, 0, None):
-            ctx.violation({"template": SRC, "result": res, "output": buf.getvalue(), "state": repr(state), "handler_saw": repr(seen)[:200]},
-                          "error_handler must see the original exception with the render state of the outermost scope", tags=["c13." + tag])
+            def handler(context, error, seen=seen, handler_result=handler_result):
+                seen.append((error, len(context._buffer_stack), len(context.caller_stack), context.caller_stack.nextcaller))
+                context.write("[handled]")
+                return handler_result
+            t = Template(SRC, error_handler=handler) if handler_result is not None else Template(SRC)
+            buf = util.FastEncodingBuffer()
+            c = Context(buf, boom=boom_e)
+            try:
+                t.render_context(c)
+                res = "normal"
+            except BaseException as e:  # noqa
+                res = "raised-same" if e is exc else "raised-other %r" % (e,)
+            want = ("normal" if handler_result else "raised-same", "direct [handled]" if handler_result is not None else "direct ")
+            state = (len(c._buffer_stack), len(c.caller_stack), c.caller_stack.nextcaller)
+            ok = (res, buf.getvalue()) == want and state == (1, 0, None)
+            if handler_result is not None:
+                ok = ok and bool(seen) and (seen[0][0] is exc or isinstance(exc, BaseException) and not isinstance(exc, Exception)) and seen[0][1:] == (1, 0, None)
+            if not ok:
+                ctx.violation({"template": SRC, "exception": repr(exc), "result": res, "output": buf.getvalue(), "state": repr(state), "handler_saw": repr(seen)[:200]},
+                              "error_handler must see the render state of the outermost scope; a declined or unhandled error propagates as the original object",
+                              tags=["c13." + tag])
     # include_error_handler: the including template goes on after the include
     for hres, want in [(True, "AI[inc-handled]B"), (False, "raised")]:
         ctx.evaluations += 1
@@ -174,10 +184,13 @@ def run(ctx):
          '% except:\n[${loop.index}]\\\n% endtry\n% endfor\n', "(7[0](78)", "loop-and-caller"),
         ('<%def name="w()" buffered="True">(${caller.body()})</%def>\\\n% for i in [1, 2]:\n% try:\n<%call expr="w()">\\\n% for j in [7, 8]:\n${loop.index}${boom() if (i, j) == (1, 8) else j}\\\n% endfor\n</%call>\\\n'
          '% except:\n[${loop.index}]\\\n% endtry\n% endfor\n', "[0](0718)", "loop-and-caller-buffered"),
+        # the iterable of an inner loop raises: nothing was entered, nothing may be exited
+        ('% for i in [1, 2]:\n% try:\n% for j in boom():\n${loop.index}\\\n% endfor\n% except:\n[${loop.index}]\\\n% endtry\n% endfor\n', "[0][1]", "loop-iterable-raises"),
+        ('% try:\n% for j in boom():\n${loop.index}\\\n% endfor\n% except Boom2:\nhandled\\\n% endtry\n', "handled", "loop-iterable-raises-toplevel"),
     ]:
         ctx.evaluations += 1
         try:
-            out = Template(src).render(boom=boom)
+            out = Template(src).render(boom=boom, Boom2=Boom2)
         except Exception as e:  # noqa
             out = "raised %s: %s" % (type(e).__name__, str(e)[:100])
         if out != want:
